@@ -14,61 +14,11 @@ theorem, and `C29_partial` proves the round trip with exactly these classes excl
 namespace Mkts.Props.C29
 open Mkts.Rows Mkts.Bytes
 
-/-- a column series the property speaks about: distinct names (invariant of `AddColumn`), an
-int64 `Epoch` column, every column of a fixed-width type handled by `GetColumn`, all columns of
-the series' length, every element of its type's size -/
-def ValidSeries (cs : ColumnSeries) : Prop :=
-  (cs.cols.map (·.name)).Nodup ∧
-  (∃ c ∈ cs.cols, c.name = "Epoch" ∧ c.typ = INT64) ∧
-  (∀ c ∈ cs.cols, (getterTable.lookup c.typ).isSome ∧ c.elems.length = cs.len ∧
-    ∀ x ∈ c.elems, x.length = typeSize c.typ)
-
-instance (cs : ColumnSeries) : Decidable (ValidSeries cs) := by unfold ValidSeries; infer_instance
-
-/-- hypothesis `epoch_first`: the first column is `Epoch` -/
-def epoch_first (cs : ColumnSeries) : Prop := (cs.cols.head?.map (·.name)) = some "Epoch"
-/-- hypothesis `no_int8_bool`: no column of element type BYTE (`[]int8`) or BOOL -/
-def no_int8_bool (cs : ColumnSeries) : Prop := ∀ c ∈ cs.cols, c.typ ≠ BYTE ∧ c.typ ≠ BOOL
-/-- hypothesis `no_epoch_alias`: no column other than `Epoch` is named "epoch" up to case -/
-def no_epoch_alias (cs : ColumnSeries) : Prop :=
-  ∀ c ∈ cs.cols, c.name ≠ "Epoch" → equalFoldEpoch c.name = false
-
-instance (cs : ColumnSeries) : Decidable (epoch_first cs) := by unfold epoch_first; infer_instance
-instance (cs : ColumnSeries) : Decidable (no_int8_bool cs) := by unfold no_int8_bool; infer_instance
-instance (cs : ColumnSeries) : Decidable (no_epoch_alias cs) := by unfold no_epoch_alias; infer_instance
-
 /-- The property at full strength: every valid series comes back unchanged (names, order, element
 types, values) from `ToRowSeries` followed by either reader, with and without alignment. -/
 def C29_full : Prop :=
   ∀ (cs : ColumnSeries) (align : Bool), ValidSeries cs →
     roundTrip cs align = .ok ⟨cs.cols, []⟩ ∧ roundTripRows cs align = .ok ⟨cs.cols, []⟩
-
-theorem validEF_of (cs : ColumnSeries) (hv : ValidSeries cs) (h1 : epoch_first cs) (h3 : no_epoch_alias cs) :
-    ∃ e rest, cs.cols = e :: rest ∧ ValidEF e rest ∧ ∀ c ∈ rest, (getterTable.lookup c.typ).isSome := by
-  obtain ⟨hnd, ⟨c0, hc0, hc0n, hc0t⟩, hall⟩ := hv
-  cases hcols : cs.cols with
-  | nil => simp [epoch_first, hcols] at h1
-  | cons e rest =>
-    have hen : e.name = "Epoch" := by simpa [epoch_first, hcols] using h1
-    rw [hcols] at hnd hc0 hall
-    have hlen : cs.len = e.elems.length := by simp [ColumnSeries.len, hcols]
-    have hce : c0 = e := by
-      rcases List.mem_cons.mp hc0 with h | h
-      · exact h
-      · exfalso
-        simp only [List.map_cons, List.nodup_cons] at hnd
-        exact hnd.1 (List.mem_map.mpr ⟨c0, h, by rw [hc0n, hen]⟩)
-    refine ⟨e, rest, rfl, ⟨hen, by rw [← hce]; exact hc0t, hnd, ?_, ?_⟩, ?_⟩
-    · intro c hc
-      have := hall c hc
-      exact ⟨by rw [← hlen]; exact this.2.1, this.2.2⟩
-    · intro c hc
-      apply h3 c (by rw [hcols]; simp [hc])
-      intro h
-      simp only [List.map_cons, List.nodup_cons] at hnd
-      exact hnd.1 (List.mem_map.mpr ⟨c, hc, by rw [h, hen]⟩)
-    · intro c hc
-      exact (hall c (by simp [hc])).1
 
 /-- Values, names and column order always survive when `Epoch` is in front and has no alias;
 element types come back as `GetColumn` types them (`retype`: BOOL and BYTE become UINT8). -/
